@@ -419,8 +419,26 @@ func (f *faultFile) Sync() error {
 	return f.File.Sync()
 }
 
-func snapshot(fs afero.Fs) tree {
+// snapshot lists the tree below /root; probe names further paths to look up
+// directly (entries that a directory walk cannot reach any more, e.g. below a
+// path that has become a file, still count).
+func snapshot(fs afero.Fs, probe ...string) tree {
 	tr := tree{}
+	defer func() {
+		for _, p := range probe {
+			if _, seen := tr[p]; seen {
+				continue
+			}
+			if info, err := fs.Stat(p); err == nil {
+				if info.IsDir() {
+					tr[p] = "<dir>"
+				} else {
+					b, _ := afero.ReadFile(fs, p)
+					tr[p] = string(b)
+				}
+			}
+		}
+	}()
 	_ = afero.Walk(fs, "/root", func(p string, info os.FileInfo, err error) error {
 		if err != nil || p == "/root" {
 			return nil
@@ -620,7 +638,7 @@ func checkOutCaseOnce(c outCase, nops *int) *Failure {
 		}()
 		runErr = arrai.OutputValue(ctx, val.Value, io.Discard, out)
 	}()
-	after := snapshot(mem)
+	after := snapshot(mem, paths...)
 	if nops != nil {
 		*nops = ffs.n
 	}
